@@ -175,8 +175,12 @@ fn mk_call(
     g: *mut FnGraph<Node>,
     w: &W,
     rx: Option<mpsc::Receiver<InterruptSignal>>,
+    opts_given: Option<StreamOpts<'static, 'static>>,
 ) -> CallFut {
-    let opts = mk_opts(cfg, rx, w, run);
+    let opts = match opts_given {
+        Some(o) => o,
+        None => mk_opts(cfg, rx, w, run),
+    };
     let limit = limit_of(cfg);
     let w = w.clone();
     macro_rules! shared {
@@ -475,6 +479,12 @@ pub struct Exec {
     pub only: Option<usize>,
     /// FnRefs are dropped on another thread
     pub xdrop: bool,
+    /// the interruptibility state shared by the `share` runs of this history (leaked: lives as long as any run needs it),
+    /// its sender, and whether a signal has been sent on it
+    #[cfg(feature = "int")]
+    shared_state: Option<*mut InterruptibilityState<'static, 'static>>,
+    shared_tx: Option<mpsc::Sender<InterruptSignal>>,
+    shared_signalled: bool,
 }
 
 thread_local! {
@@ -576,6 +586,10 @@ impl Exec {
             task_polls: 0,
             only: None,
             xdrop: false,
+            #[cfg(feature = "int")]
+            shared_state: None,
+            shared_tx: None,
+            shared_signalled: false,
         }
     }
 
@@ -674,7 +688,52 @@ impl Exec {
                 if self.runs.iter().enumerate().any(|(i, o)| i != r && o.cfg.mutv && o.status == Status::Live) {
                     return false;
                 }
-                let rx = if cfg.has_channel() {
+                #[allow(unused_mut)]
+                let mut cfg = cfg;
+                #[allow(unused_mut, unused_assignments)]
+                let mut shared_opts: Option<StreamOpts<'static, 'static>> = None;
+                #[cfg(feature = "int")]
+                if cfg.share && cfg.strategy == "finish" && !cfg.is_stream() {
+                    if self.any_live_other(r) {
+                        return false;
+                    }
+                    if self.shared_state.is_none() {
+                        let (tx, rx) = mpsc::channel::<InterruptSignal>(16);
+                        let st = Box::leak(Box::new(InterruptibilityState::new_finish_current(rx.into())));
+                        self.shared_state = Some(st as *mut _);
+                        self.shared_tx = Some(tx);
+                    }
+                    // the scenario asks for a signal that is pending when this call begins (the run re-executed alone,
+                    // after a history in which an earlier run had been signalled): send it on the shared channel now
+                    if cfg.pre_signal && !self.shared_signalled {
+                        if let Some(tx) = self.shared_tx.as_ref() {
+                            let _ = tx.try_send(InterruptSignal);
+                        }
+                        self.shared_signalled = true;
+                    }
+                    // what the call sees: a signal sent on the shared channel earlier is pending when it begins
+                    cfg.pre_signal = self.shared_signalled;
+                    cfg.tx_drop = false;
+                    cfg.sync_sig.clear();
+                    self.runs[r].cfg = cfg.clone();
+                    self.runs[r].tx = self.shared_tx.clone();
+                    self.runs[r].signalled = self.shared_signalled;
+                    // SAFETY: the state is leaked, and sharing runs never overlap (checked above)
+                    let st: &'static mut InterruptibilityState<'static, 'static> = unsafe { &mut *self.shared_state.unwrap() };
+                    let mut o = StreamOpts::new();
+                    if cfg.order == "rev" {
+                        o = o.rev();
+                    }
+                    o = o.interruptibility_state(st.reborrow());
+                    if !cfg.include {
+                        o = o.interrupted_next_item_include(false);
+                    }
+                    shared_opts = Some(o);
+                }
+                let sharing = shared_opts.is_some();
+                let rx = if sharing {
+                    None
+                } else if cfg.has_channel() {
                     let (tx, rx) = mpsc::channel::<InterruptSignal>(16);
                     if cfg.pre_signal {
                         tx.try_send(InterruptSignal).expect("pre signal");
@@ -725,7 +784,7 @@ impl Exec {
                 } else {
                     let g = self.g;
                     let w = self.w.clone();
-                    match catch_unwind(AssertUnwindSafe(|| mk_call(&cfg, run, g, &w, rx))) {
+                    match catch_unwind(AssertUnwindSafe(|| mk_call(&cfg, run, g, &w, rx, shared_opts))) {
                         Ok(f) => {
                             self.runs[r].body = Body::Call(f);
                             self.runs[r].status = Status::Live;
@@ -751,6 +810,9 @@ impl Exec {
                 }
                 if signal {
                     self.runs[r].signalled = true;
+                    if self.runs[r].cfg.share {
+                        self.shared_signalled = true;
+                    }
                 }
                 if !ok {
                     self.runs[r].fails_used += 1;
@@ -770,6 +832,9 @@ impl Exec {
                         let sent = tx.try_send(InterruptSignal).is_ok();
                         self.runs[r].signalled = true;
                         self.runs[r].signals_sent += 1;
+                        if self.runs[r].cfg.share {
+                            self.shared_signalled = true;
+                        }
                         self.ev(json!({"ev":"signal","run":run,"sent":sent}));
                         if self.runs[r].cfg.tx_drop {
                             self.runs[r].tx = None;
